@@ -10,6 +10,9 @@ import warnings
 
 warnings.simplefilter('ignore')
 os.environ.setdefault('MPLBACKEND', 'Agg')
+# single-threaded numerical libraries: their thread pools do not survive fork(), and the group functions fork worker pools
+for _v in ('OMP_NUM_THREADS', 'OPENBLAS_NUM_THREADS', 'MKL_NUM_THREADS', 'NUMEXPR_NUM_THREADS', 'VECLIB_MAXIMUM_THREADS'):
+    os.environ[_v] = '1'
 
 from . import core  # noqa: E402
 
@@ -30,8 +33,15 @@ def main():
     ap.add_argument('--budget', type=float, default=None)
     ap.add_argument('--replay', default=None)
     ap.add_argument('--list', action='store_true')
+    ap.add_argument('--one-case', default=None, help='JSON file {job, case}: run a single case in this process (isolation)')
     a = ap.parse_args()
     load_jobs()
+    if a.one_case:
+        with open(a.one_case) as f:
+            doc = json.load(f)
+        r = core._run_chunk((doc['job'], [doc['case']]))[0]
+        print('ONE-CASE-RESULT ' + json.dumps(r))
+        return 0
     if a.list:
         for n, j in core.JOBS.items():
             print(n, j.meta)
